@@ -87,7 +87,7 @@ def render_scc(prog):
              '  integer, parameter :: jprb = selected_real_kind(13, 300)',
              '  integer, parameter :: jprd = selected_real_kind(13, 300)',
              '  integer, parameter :: jpim = selected_int_kind(9)',
-             '  integer, parameter :: jwim = selected_int_kind(9)',
+             f"  integer, parameter :: jwim = selected_int_kind({18 if prog.get('jwim8') else 9})",
              'contains']
     for u in prog['units']:
         lines.append(f"  subroutine {u['name']}({', '.join(u['args'])})")
@@ -929,6 +929,25 @@ def strip_contiguous_explicit_shape(text):
     return _CONTIG.sub('', text)
 
 
+_SIZE_ASSIGN = re.compile(r'^(\s*J_\w*STACK_SIZE = )(.*)$', re.M)
+_STACK_ALLOC = re.compile(r'^(\s*ALLOCATE \((\w*STACK)\()(.*), (\w+)\)\)\s*$', re.M)
+
+
+def pad_stack(text):
+    """Documented normalisation for the FtrPtr/DirectIdx variants named *-pad (and the C37 pipelines built on them): the
+    driver-side stack of every type gets ONE extra element (size variable and ALLOCATE).  Both transformations address
+    the stack one element too far (C38 findings `ftrptr` / `directidx`); padding makes the behaviour behind that defect
+    observable.  Continuation lines are joined first."""
+    text = re.sub(r'[ \t]*&[ \t]*\n[ \t]*&[ \t]*', ' ', text)
+    n1 = len(_SIZE_ASSIGN.findall(text))
+    n2 = len(_STACK_ALLOC.findall(text))
+    if n1 != n2:
+        raise F.NotApplicable(f'pad_stack: {n1} stack size assignments vs {n2} stack allocations')
+    text = _SIZE_ASSIGN.sub(lambda m: f'{m.group(1)}({m.group(2)}) + 1', text)
+    text = _STACK_ALLOC.sub(lambda m: f'{m.group(1)}({m.group(3)}) + 1, {m.group(4)}))', text)
+    return text
+
+
 # ============================================================================================ build + judge
 FFLAGS_BASE = ['-O0', '-w', '-fno-range-check', '-ffree-line-length-none', '-fcray-pointer']
 FFLAGS_CHECK = ['-g', '-fcheck=bounds', '-fsanitize=address']
@@ -1088,39 +1107,75 @@ def behaviour_check_multi(ctx, label, cases, variants, transform, *, entry='kern
                 fails[v].append((idx, nw[0], nw[2]))
     for key, val in stats.items():
         ctx.cover[f'{label}_{key}'] = ctx.cover.get(f'{label}_{key}', 0) + val
+    if label != 'shrink':
+        import sys
+        print(f'[{label}] {stats} failing: ' + str({v: len(f_) for v, f_ in fails.items() if f_}), file=sys.stderr)
     return results, fails, legal
 
 
-def report_failures_multi(ctx, prop, cases, results, fails, transform, *, max_groups=4, rounds=4, shrink=True):
-    """Per variant: group by failure signature, shrink one representative per group by statement deletion (re-running
-    the check for that variant only), key = <prop>:<variant>:<signature>:<statement kinds of the shrunk program>."""
+def shape(prog):
+    """Normal-form description of a (shrunk) program: statement kinds + structural markers of the SCC domain."""
+    marks = set()
+    nm = NAMES[prog['names']]
+    for u in prog['units'][1:]:
+        def walk(ss, in_v):
+            for s_ in ss:
+                k = s_['s']
+                if k == 'call' and in_v:
+                    marks.add('call-in-vloop')
+                if k == 'raw':
+                    marks.add('fuse-pragma')
+                if k == 'assign':
+                    if any(x.get('k') == 'range' for x in _walk(s_['lhs'])):
+                        marks.add('vecnot')
+                    if s_['lhs']['k'] == 'var' and any(x.get('k') == 'var' and x.get('name') == s_['lhs']['name'] for x in _walk(s_['rhs'])):
+                        marks.add('accum')
+                for key in ('body', 'els'):
+                    if isinstance(s_.get(key), list):
+                        walk(s_[key], in_v or (k == 'do' and s_['var'] == nm['jk']))
+                for b in s_.get('bodies', []):
+                    walk(b, in_v)
+        walk(u['body'], False)
+    return '+'.join([F.stmt_kinds(prog)] + sorted(marks))
+
+
+def report_failures_multi(ctx, prop, cases, results, fails, transform, *, budget=4, shrink=True):
+    """Per variant: group by failure signature; key = <prop>:<variant>:<signature> and, for wrong output, the shape of
+    the (shrunk) program.  Build failures / crashes / exceptions are classes of their own: their key does not depend on
+    the program.  `budget` = total number of shrink rounds (each re-runs the whole check on up to 12 candidates)."""
+    import sys
+    todo = []
     for v, fl in fails.items():
-        if not fl:
-            continue
         groups = {}
         for idx, kind, msg in fl:
             groups.setdefault(F.failure_signature(kind, msg), []).append((idx, kind, msg))
-        ctx.cover.setdefault('failure_groups', {})[v] = {k: len(m) for k, m in groups.items()}
-        for gi, (sig, members) in enumerate(sorted(groups.items())):
-            idx, kind, msg = min(members, key=lambda m: len(results[m[0]]['text']))
-            prog, inputs = cases[idx]
-            small = prog
-            if shrink and gi < max_groups:
-                for _ in range(rounds):
-                    cands = F.removal_candidates(small, limit=12)
-                    if not cands:
-                        break
-                    _, fl2, _ = behaviour_check_multi(ctx, 'shrink', [(c, inputs) for c in cands], [v], transform)
-                    hit = {i: F.failure_signature(k2, m2) for i, k2, m2 in fl2[v]}
-                    nxt = next((c for i, c in enumerate(cands) if hit.get(i) == sig), None)
-                    if nxt is None:
-                        break
-                    small = nxt
-            key = f'{prop}:{v}:{sig}:{F.stmt_kinds(small)}'
-            newtext = '\n'.join(t for _, t in results[idx]['srcs'].get(v, []))
-            ctx.violation(key, f'{v}: {len(members)} program(s); transformed call tree {"output differs" if kind == "output" else kind}: {msg[:900]}\n'
-                               f'--- original (shrunk) ---\n{F.render(small)}--- transformed (unshrunk case) ---\n{newtext[:3500]}',
-                          {'prog': prog, 'inputs': inputs, 'variant': v})
+        if groups:
+            ctx.cover.setdefault('failure_groups', {})[v] = {k: len(m) for k, m in groups.items()}
+        for sig, members in sorted(groups.items()):
+            todo.append((v, sig, members))
+    # wrong-output groups are shrunk first (their key depends on it)
+    todo.sort(key=lambda t: (t[2][0][1] != 'output', t[0], t[1]))
+    for v, sig, members in todo:
+        idx, kind, msg = min(members, key=lambda m: len(results[m[0]]['text']))
+        prog, inputs = cases[idx]
+        small = prog
+        while shrink and budget > 0:
+            budget -= 1
+            cands = F.removal_candidates(small, limit=12)
+            if not cands:
+                break
+            print(f'[{prop}] shrinking {v} {sig[:60]} ({len(cands)} candidates, {budget} rounds left)', file=sys.stderr)
+            _, fl2, _ = behaviour_check_multi(ctx, 'shrink', [(c, inputs) for c in cands], [v], transform)
+            hit = {i: F.failure_signature(k2, m2) for i, k2, m2 in fl2[v]}
+            nxt = next((c for i, c in enumerate(cands) if hit.get(i) == sig), None)
+            if nxt is None:
+                break
+            small = nxt
+        key = f'{prop}:{v}:{sig}' + (f':{shape(small)}' if kind == 'output' else '')
+        newtext = '\n'.join(t for _, t in results[idx]['srcs'].get(v, []))
+        ctx.violation(key, f'{v}: {len(members)} program(s); transformed call tree {"output differs" if kind == "output" else kind}: {msg[:900]}\n'
+                           f'--- original ({"shrunk" if small is not prog else "unshrunk"}) ---\n{F.render(small)}--- transformed (unshrunk case) ---\n{newtext[:3500]}',
+                      {'prog': prog, 'inputs': inputs, 'variant': v})
 
 
 # ============================================================================================ variants
@@ -1141,10 +1196,10 @@ C37_VARIANTS = {
     'vstack-nocheck':     ('SCCVStackPipeline', dict(directive='openacc', check_bounds=False)),
     'vstack-locrhs':      ('SCCVStackPipeline', dict(check_bounds=True, cray_ptr_loc_rhs=True)),
     'sstack':             ('SCCSStackPipeline', dict(directive='openacc', check_bounds=True)),
-    'vftrptr':            ('SCCVStackFtrPtrPipeline', dict(directive='openacc', strip=True)),
-    'sftrptr':            ('SCCSStackFtrPtrPipeline', dict(directive='openacc', strip=True)),
-    'vdirectidx':         ('SCCVStackDirectIdxPipeline', dict(directive='openacc', strip=True)),
-    'sdirectidx':         ('SCCSStackDirectIdxPipeline', dict(directive='openacc', strip=True)),
+    'vftrptr':            ('SCCVStackFtrPtrPipeline', dict(directive='openacc', strip=True, pad=True)),
+    'sftrptr':            ('SCCSStackFtrPtrPipeline', dict(directive='openacc', strip=True, pad=True)),
+    'vdirectidx':         ('SCCVStackDirectIdxPipeline', dict(directive='openacc', strip=True, pad=True)),
+    'sdirectidx':         ('SCCSStackDirectIdxPipeline', dict(directive='openacc', strip=True, pad=True)),
     'vraw':               ('SCCVRawStackPipeline', dict(directive='openacc')),
     'sraw':               ('SCCSRawStackPipeline', dict(directive='openacc')),
 }
@@ -1161,6 +1216,8 @@ C38_VARIANTS = {
     'pool-locrhs':    ('pool', dict(check_bounds=True, cray_ptr_loc_rhs=True)),
     'ftrptr':         ('ftrptr', dict(strip=True)),
     'directidx':      ('directidx', dict(strip=True)),
+    'ftrptr-pad':     ('ftrptr', dict(strip=True, pad=True)),
+    'directidx-pad':  ('directidx', dict(strip=True, pad=True)),
     'ftrptr-asis':    ('ftrptr', dict()),
     'directidx-asis': ('directidx', dict()),
     'raw':            ('raw', dict()),
@@ -1173,6 +1230,7 @@ def transform_c37(variant, text, prog, workdir):
     opts = dict(opts)
     horizontal, vertical, block = dimensions(prog)
     strip = opts.pop('strip', False)
+    pad = opts.pop('pad', False)
     kw = dict(horizontal=horizontal, block_dim=block)
     if opts.pop('vertical', False):
         kw['vertical'] = vertical
@@ -1183,6 +1241,8 @@ def transform_c37(variant, text, prog, workdir):
     srcs = scheduler_sources(sched)
     if strip:
         srcs = [(n, strip_contiguous_explicit_shape(t)) for n, t in srcs]
+    if pad:
+        srcs = [(n, pad_stack(t)) for n, t in srcs]
     return srcs
 
 
@@ -1193,6 +1253,7 @@ def transform_c38(variant, text, prog, workdir):
     horizontal, _vertical, block = dimensions(prog)
     nm = NAMES[prog['names']]
     strip = opts.pop('strip', False)
+    pad = opts.pop('pad', False)
     sched = make_scheduler(text, workdir)
     if recipe in ('hoist', 'hoist-alloc'):
         dim_vars = opts.pop('dim_vars', None)
@@ -1212,4 +1273,6 @@ def transform_c38(variant, text, prog, workdir):
     srcs = scheduler_sources(sched)
     if strip:
         srcs = [(n, strip_contiguous_explicit_shape(t)) for n, t in srcs]
+    if pad:
+        srcs = [(n, pad_stack(t)) for n, t in srcs]
     return srcs
